@@ -1,6 +1,6 @@
 (* C15 — property theorems only.  Each is closed by [exact] of a lemma proved in
    C15_Proofs.v and followed by Print Assumptions. *)
-Require Import V.Lib V.GoPath V.Gen_C15 V.C15_Model V.C15_Proofs V.C15_Strings V.C15_IP V.C15_Qualify V.C15_Redirect.
+Require Import V.Lib V.GoPath V.Gen_C15 V.C15_Model V.C15_Proofs V.C15_Strings V.C15_IP V.C15_Qualify V.C15_Redirect V.C15_Settings.
 From Coq Require Import Permutation.
 Open Scope N_scope.
 
@@ -569,3 +569,69 @@ Example C15_activate_without_startup_certificate_nonvacuous :
     forallb (fun s => negb (mg (tls (mark_one s)) && negb (od (tls (mark_one s))))) init = true /\
     map redir (stage_a init) = [None; Some (bs "8443")].
 Proof. exact activate_without_startup_certificate_witness. Qed.
+
+
+(* ---- process-level settings: -port, -host, -http-port, -https-port (httpserver.Port / Host,
+        certmagic.HTTPPort / HTTPSPort) ---- *)
+
+(* the pipeline parametrised by the settings is, at the defaults (2015, "", 80, 443), the pipeline every
+   theorem above speaks about: standardizeAddress, the default host/port substitution of
+   InspectServerBlocks (the identity there), the callback stages and MakeServers *)
+Theorem C15_settings_default_is_the_model :
+  (forall init, stage_a_s settings0 init = stage_a init) /\ (forall a, stage_b_s settings0 a = stage_b a)
+  /\ (forall sch prt, std_addr_s settings0 sch prt = std_addr sch prt)
+  /\ (forall h p, default_host_s settings0 h = h /\ default_port_s settings0 p = p).
+Proof. exact settings_default. Qed.
+Print Assumptions C15_settings_default_is_the_model.
+
+(* "sites declared as plain HTTP never have TLS enabled", for ALL settings and ALL site lists, whatever
+   the source of the port (address text, scheme, or the default-port setting): after MakeServers a site
+   whose port is the HTTP port or whose scheme is http has TLS disabled.  Provisos: the HTTP and HTTPS
+   ports differ, and the default port is not the HTTP port unless every site already has a port (which
+   InspectServerBlocks guarantees whenever -port is not 2015). *)
+Theorem C15_http_port_site_never_tls_any_settings :
+  forall st a s,
+    s_http st <> s_https st ->
+    (s_port st <> s_http st \/ Forall (fun x => port x <> []) a) ->
+    In s (stage_b_s st a) -> (port s = s_http st \/ scheme s = HTTP) -> en (tls s) = false.
+Proof. exact http_port_site_never_tls. Qed.
+Print Assumptions C15_http_port_site_never_tls_any_settings.
+
+(* -port 80, example.com { tls self_signed }: enabled by the directive, disabled by MakeServers *)
+Example C15_http_port_site_never_tls_any_settings_nonvacuous :
+  exists st a s, s_http st <> s_https st /\ Forall (fun x => port x <> []) a /\ s_port st = s_http st /\
+    In s (stage_b_s st a) /\ port s = s_http st /\ en (tls s) = false /\ exists x, In x a /\ en (tls x) = true.
+Proof. exact http_port_nonvacuous. Qed.
+
+(* MakeServers' step itself, every site and every setting: a site on the HTTP port or with scheme http
+   comes out with TLS disabled and its scheme untouched (never rewritten to https) *)
+Theorem C15_makeservers_http_site_tls_off_scheme_kept :
+  forall st s, (port s = s_http st \/ scheme s = HTTP) ->
+    en (tls (ms_one_s st s)) = false /\ scheme (ms_one_s st s) = scheme s.
+Proof. exact ms_one_s_http_site. Qed.
+Print Assumptions C15_makeservers_http_site_tls_off_scheme_kept.
+
+(* the default-port substitution: when -port is the HTTP port (and not 2015), a declaration without a
+   port is a site on the HTTP port with whatever scheme standardizeAddress left (empty), and for every
+   host, listener and set of TLS flags the tls directive left behind, it ends with TLS disabled *)
+Theorem C15_default_port_site_on_http_port_never_tls :
+  forall st sc h l t r,
+    s_port st = s_http st -> s_port st <> P2015 -> s_http st <> [] ->
+    let s := {| scheme := sc; host := h; port := default_port_s st []; listen := l; tls := t; redir := r |} in
+    port s = s_http st /\ en (tls (ms_one_s st (enable_one_s st (mark_one s)))) = false.
+Proof. exact default_port_site_never_tls. Qed.
+Print Assumptions C15_default_port_site_on_http_port_never_tls.
+
+(* "a site on the HTTP port is never given managed HTTPS": true of the code when the HTTP port is 80 ... *)
+Theorem C15_managed_on_http_port_partial :
+  forall st s, s_http st = P80 -> port s = s_http st -> mg (tls s) = false -> mg (tls (mark_one s)) = false.
+Proof. exact not_managed_on_port_80. Qed.
+Print Assumptions C15_managed_on_http_port_partial.
+
+(* ... and REFUTED for other HTTP ports (F-C15-4, open): -port 8080 -http-port 8080, example.com is marked
+   Managed and made https (QualifiesForManagedTLS compares with the literal "80") *)
+Theorem C15_managed_on_http_port_refuted :
+  exists st s, port s = s_http st /\
+    mg (tls (enable_one_s st (mark_one s))) = true /\ scheme (enable_one_s st (mark_one s)) = HTTPS.
+Proof. exact managed_on_http_port_witness. Qed.
+Print Assumptions C15_managed_on_http_port_refuted.
